@@ -42,6 +42,7 @@ def run(rep: Report, tier: str) -> None:
 	rule_g(rep, idx)
 	rule_h(rep, idx)
 	rule_i(rep, idx)
+	rule_j(rep, idx)
 
 
 def rule_a(rep: Report, idx: SourceIndex) -> None:
@@ -607,3 +608,45 @@ def rule_i(rep: Report, idx: SourceIndex) -> None:
 					r.skip(key, (rel, c_.lineno), f'argument `{txt[:60]}` is neither recognisably a full path nor a bare tag')
 	if n_sites == 0:
 		r.skip('relativefy-sites', None, 'no relativefy call found in rogw/tranp/syntax')
+
+
+def rule_j(rep: Report, idx: SourceIndex) -> None:
+	"""Depth-bounded queries (`EntryCache.group_by(via, depth)`: children / siblings use depth 1, expand looks 3 levels down) recurse with the bound as a
+	parameter and stop at `depth == 0` (-1 = unlimited never reaches 0). The recursive call must hand on `depth - 1`: passing the bound unchanged makes
+	every positive depth unlimited — the query returns entries below the requested level, so `expand` yields nodes the caller's own level test never
+	looked at, and which nodes exist depends on how deep the tree below happens to be."""
+	from vlib.linear import linear
+	r = rep.rule('C10/depth-bound-decreases', 'every function of the addressing layer that stops at `depth == 0` passes `depth - 1` in its recursive calls', floor=1)
+	n_sites = 0
+	for rel in idx.glob('rogw/tranp/syntax/**/*.py'):
+		m = idx.mod(rel)
+		for q, f in m.functions.items():
+			params = f.params()
+			dp = next((p_ for p_ in params if p_ == 'depth'), None)
+			if dp is None:
+				continue
+			base = any(isinstance(c_, ast.Compare) and unparse(c_.left) == dp and isinstance(c_.ops[0], (ast.Eq, ast.LtE)) and unparse(c_.comparators[0]) == '0' for c_ in ast.walk(f.node))
+			if not base:
+				continue
+			pos = [p_ for p_ in params if p_ not in ('self', 'cls')].index(dp)
+			for c_ in [n for n in walk_no_nested(f.node) if isinstance(n, ast.Call)]:
+				callee = c_.func.attr if isinstance(c_.func, ast.Attribute) and isinstance(c_.func.value, ast.Name) and c_.func.value.id in ('self', 'cls') else (c_.func.id if isinstance(c_.func, ast.Name) else None)
+				if callee is None or callee != f.name and mangle_name(f, callee) != f.name:
+					continue
+				arg = next((k.value for k in c_.keywords if k.arg == dp), c_.args[pos] if len(c_.args) > pos else None)
+				if arg is None:
+					continue
+				n_sites += 1
+				terms, const = linear(arg)
+				key = f'{q}:{unparse(c_)[:50]}'
+				if terms == {dp: 1}:
+					r.check(const == -1, key, (rel, c_.lineno), f'{q} stops at `{dp} == 0` but its recursive call passes `{unparse(arg)}`: the bound never decreases, every positive depth behaves as unlimited — `group_by(via, 1)` (children, siblings) and `group_by(via, 3)` (expand) return the whole sub-tree below `via`', unparse(c_))
+				else:
+					r.skip(key, (rel, c_.lineno), f'depth argument `{unparse(arg)[:40]}` of the recursive call is not the parameter plus a constant')
+	if n_sites == 0:
+		r.skip('depth-recursion', None, 'no function with a `depth` parameter, a `depth == 0` stop and a recursive call found in rogw/tranp/syntax')
+
+
+def mangle_name(f, callee: str) -> str:
+	"""`self.__under(...)` inside class C calls C.__under: the FuncInfo name is the plain source name, so only the leading underscores matter"""
+	return callee
